@@ -95,12 +95,6 @@ def scanformat (rest : Bytes) : R Scan := do
   let (pr, p) ← (if c = 46 then twoDigits s (p + 1) else pure ([], p) : R (Bytes × Nat))
   finish s p w pr
 
-/-- `.precision`, as `Format.go` reads it: the digits (if there is a `.`) and what follows -/
-def precPart (r2 : Bytes) : Option Bytes × Bytes :=
-  match r2 with
-  | 46 :: r => let ds := (r.takeWhile isDigit).take 2; (some ds, r.drop ds.length)
-  | _ => (none, r2)
-
 /-- the conversion character must not be a third digit; its offset is what has been consumed -/
 def parseTail (len : Nat) (w : Bytes) (p : Option Bytes) (r3 : Bytes) : Option (Nat × Bytes × Bytes) :=
   match r3 with
